@@ -8,6 +8,7 @@ Exit code 0 = no failure, 1 = failures.  A crash of the interpreter shows up as 
 """
 import itertools
 import json
+import warnings
 import sys
 import threading
 
@@ -91,6 +92,45 @@ def check_list(seq, ms, text, expected, cfg, what):
     for m in ms:
         if text is not None and text[m.begin():m.end()] != m.raw_surface():
             fail(seq, "%s: text[%d:%d]=%r but raw_surface()=%r" % (what, m.begin(), m.end(), text[m.begin():m.end()], m.raw_surface()))
+    # the rest of the list / morpheme protocol
+    n = len(ms)
+    if bool(ms) != (n != 0):
+        fail(seq, "%s: bool(list) is %r for %d morphemes" % (what, bool(ms), n))
+    if str(ms) != " ".join(m.raw_surface() for m in ms):
+        fail(seq, "%s: str(list) %r is not the space-joined surfaces" % (what, str(ms)))
+    repr(ms)
+    for i, m in enumerate(ms):
+        e = expected[i]
+        for j in (i, i - n):
+            mi = ms[j]
+            if (mi.begin(), mi.end(), mi.raw_surface(), mi.word_id()) != (m.begin(), m.end(), m.raw_surface(), m.word_id()):
+                fail(seq, "%s: list[%d] is not morpheme %d of the iteration" % (what, j, i))
+        if len(m) != m.end() - m.begin():
+            fail(seq, "%s: len(morpheme) %d but end-begin = %d" % (what, len(m), m.end() - m.begin()))
+        if str(m) != m.surface():
+            fail(seq, "%s: str(morpheme) %r != surface() %r" % (what, str(m), m.surface()))
+        repr(m)
+        want = cfg["fields"]
+        if want is None or "pos" in want:
+            if m.part_of_speech_id() != e["pos_id"]:
+                fail(seq, "%s: part_of_speech_id() %r != library %r" % (what, m.part_of_speech_id(), e["pos_id"]))
+        if want is None:
+            with warnings.catch_warnings():
+                warnings.simplefilter("ignore")
+                wi = m.get_word_info()
+            got = (wi.surface, wi.head_word_length, wi.length(), wi.pos_id, wi.normalized_form, wi.dictionary_form_word_id, wi.dictionary_form, wi.reading_form,
+                   list(wi.a_unit_split), list(wi.b_unit_split), list(wi.word_structure), list(wi.synonym_group_ids))
+            w = e["wi"]
+            exp_wi = (w["surface"], w["head_word_length"], w["head_word_length"], e["pos_id"], e["normalized_form"], w["dictionary_form_word_id"], e["dictionary_form"], e["reading_form"],
+                      w["a_unit_split"], w["b_unit_split"], w["word_structure"], e["synonym_group_ids"])
+            if got != exp_wi:
+                fail(seq, "%s: get_word_info() of morpheme %d is %r, library %r" % (what, i, got, exp_wi))
+    for bad in (n, -n - 1):
+        try:
+            ms[bad]
+            fail(seq, "%s: list[%d] of a list of %d did not raise" % (what, bad, n))
+        except IndexError:
+            pass
 
 
 def run_sequence(dic, cfg, seq):
